@@ -75,6 +75,11 @@ class Rewriter(ast.NodeTransformer):
                 parts.append(ast.Tuple([v.value, ast.Constant(v.conversion), spec], ast.Load()))
         return ast.copy_location(ast.Call(ast.Name("_sx_fstr", ast.Load()), [ast.List(parts, ast.Load())], []), node)
 
+    def visit_Assert(self, node):
+        self.generic_visit(node)
+        lam = ast.Lambda(ast.arguments(posonlyargs=[], args=[], kwonlyargs=[], kw_defaults=[], defaults=[]), node.test)
+        return ast.copy_location(ast.Expr(ast.Call(ast.Name("_sx_assert", ast.Load()), [lam], [])), node)
+
     def _wrap(self, node, fn):
         self.generic_visit(node)
         return ast.copy_location(ast.Call(ast.Name(fn, ast.Load()), [node], []), node)
@@ -110,6 +115,48 @@ def _sx_tick():
 
 
 TICK_HOOK = [None]
+
+
+def _sx_assert(thunk):
+    """`assert cond`: the condition is evaluated in a nested exploration and merged into one Boolean term;
+    a possibly-false condition becomes a deferred AssertionError guard instead of a fork per disjunct"""
+    from .explorer import _STACK, explore
+    import z3
+    if not _STACK:
+        if not thunk():
+            raise AssertionError()
+        return
+    outer = _STACK[-1]
+    paths, _ = explore(thunk, fuel=outer.fuel0)
+    ok = []
+    bad = []
+    for p in paths:
+        g = p.cond()
+        if p.kind == "return":
+            v = p.value
+            if isinstance(v, P.SymBool):
+                ok.append(z3.And(g, v.t))
+                bad.append(z3.And(g, z3.Not(v.t)))
+            elif v:
+                ok.append(g)
+            else:
+                bad.append(g)
+        elif p.kind == "raise":
+            outer.deferred.append((g, p.value))
+        else:
+            raise Unsupported("assert condition ended with %s" % p.kind)
+    if not bad:
+        return
+    badc = z3.simplify(z3.Or(*bad))
+    if z3.is_false(badc):
+        return
+    if ASSERT_DEFER[0]:
+        outer.deferred.append((badc, AssertionError()))
+    elif outer.branch(badc):
+        raise AssertionError()
+
+
+ASSERT_DEFER = [True]
 
 
 def _sx_not(x):
@@ -188,7 +235,7 @@ def load_module(modname, relpath, package="nmea2000", pre=None, drop_logging=Tru
     mod.__package__ = package
     g = mod.__dict__
     g.update(_sx_is=P._sx_is, _sx_is_not=P._sx_is_not, _sx_not=_sx_not, _sx_in=_sx_in, _sx_not_in=_sx_not_in,
-             _sx_fstr=_sx_fstr, _sx_tick=_sx_tick, _sx_join=_sx_join,
+             _sx_fstr=_sx_fstr, _sx_tick=_sx_tick, _sx_join=_sx_join, _sx_assert=_sx_assert,
              _sx_dict=symcoll.SymDict, _sx_set=symcoll.SymSet, dict=symcoll.SymDict, set=symcoll.SymSet)
     if pre:
         g.update(pre)
